@@ -110,8 +110,9 @@ type ReplyCtx struct {
 	EncApp   *der.Type // EncASRepPart / EncTGSRepPart
 	RepType  *der.Type // AS-REP / TGS-REP
 	Tamper   func([]byte) []byte
-	Error    *int // set to answer with a KRB-ERROR of this code instead
-	Raw      []byte // set to answer with these bytes verbatim
+	Error    *int                // set to answer with a KRB-ERROR of this code instead
+	Raw      []byte              // set to answer with these bytes verbatim
+	Post     func([]byte) []byte // applied to the encoded reply
 }
 
 // Realm is one simulated realm.
@@ -495,6 +496,9 @@ func (r *Realm) finish(ctx *ReplyCtx, kind, reqSName string) []byte {
 	ctx.Rep["ticket"] = tv
 	ctx.Rep["enc-part"] = ed
 	out := ctx.RepType.MustEncode(ctx.Rep)
+	if ctx.Post != nil {
+		out = ctx.Post(out)
+	}
 	is := Issued{Kind: kind, Realm: r.Name, CName: ctx.Ticket.CName, CRealm: ctx.Ticket.CRealm, SName: ctx.Ticket.SName, ReqSName: reqSName,
 		Ticket: der.Ticket.MustEncode(tv), Session: ctx.Ticket.Session, End: ctx.Ticket.EndTime, Flags: ctx.Ticket.Flags, At: r.World.Now()}
 	if ctx.Ticket.StartTime != nil {
